@@ -8,6 +8,8 @@ D_AppPool == { A(1, api, 0, api),
                A(4, <<"/","a">>, 0, <<"/","a">>),
                A(5, <<"/","a","p">>, 0, <<"/","a","p">>),
                A(6, api \o <<"/","v","1">> \o <<"/","d">>, 3, <<"/","d">>),  \* three levels deep
-               A(7, <<"/","a","/","b">>, 0, <<"/","a","/","b">>) }          \* two-segment prefix mounted at top level
+               A(7, <<"/","a","/","b">>, 0, <<"/","a","/","b">>),           \* two-segment prefix mounted at top level
+               A(8, <<"/","A","d","m">>, 0, <<"/","A","d","m">>),           \* capitals in the prefix; requests spell it the same way
+               A(9, <<"/","t","s">>, 0, <<"/","t","s","/">>) }              \* written with a trailing slash at the mount call: the same prefix
 D_Tails == { <<"/","b","o","o","m">>, <<"/","n","o","p","e">>, <<>>, <<"x","/","b","o","o","m">>, <<"/","v","1","/","b","o","o","m">> }
 ====
